@@ -44,11 +44,19 @@ func extractC10(c *Ctx) {
 	format, cts, fsrc := "", []string{}, ""
 	if fd := c.FuncDecl(file, "", "transcodeError"); fd != nil {
 		fsrc = c.Pos(fd)
-		ast.Inspect(fd.Body, func(n ast.Node) bool {
+		// only the fallback path: the else block of `if transcodeErr == nil { … } else { … }`
+		var fallback ast.Node = &ast.BlockStmt{}
+		for _, st := range fd.Body.List {
+			if ifs, ok := st.(*ast.IfStmt); ok && ifs.Else != nil {
+				fallback = ifs.Else
+			}
+		}
+		ast.Inspect(fallback, func(n ast.Node) bool {
 			switch x := n.(type) {
 			case *ast.CallExpr:
-				if sel, ok := x.Fun.(*ast.SelectorExpr); ok && sel.Sel.Name == "Fprintf" && len(x.Args) >= 2 {
-					if lit, ok := x.Args[1].(*ast.BasicLit); ok && lit.Kind == token.STRING {
+				// fmt.Fprintf(&buf, "…%s…", …) / fmt.Sprintf("…%s…", …) / fmt.Appendf(nil, "…", …): the format literal
+				for _, a := range x.Args {
+					if lit, ok := a.(*ast.BasicLit); ok && lit.Kind == token.STRING && strings.Contains(lit.Value, "%") && format == "" {
 						format, _ = strconv.Unquote(lit.Value)
 					}
 				}
